@@ -153,5 +153,45 @@ def check_reads_frame():
     return obs
 
 
+def check_dep_import_options():
+    """Options.dep_import_options() is the value by which an importer notices that the options of a
+    dependency changed the way its import is handled.  Frame: every Options attribute that
+    build.find_module_and_diagnose reads from the DEPENDENCY's options (its `options` parameter) is
+    written into that value."""
+    import ast
+    import os as _os
+
+    repo = _os.environ.get("VERIF_REPO", "/repo")
+    ot = ast.parse(open(_os.path.join(repo, "mypy/options.py")).read())
+    bt = ast.parse(open(_os.path.join(repo, "mypy/build.py")).read())
+    dep = None
+    for c in ot.body:
+        if isinstance(c, ast.ClassDef) and c.name == "Options":
+            dep = next((m for m in c.body if isinstance(m, ast.FunctionDef) and m.name == "dep_import_options"), None)
+    fmd = next((f for f in bt.body if isinstance(f, ast.FunctionDef) and f.name == "find_module_and_diagnose"), None)
+    if dep is None or fmd is None or "options" not in [a.arg for a in fmd.args.args]:
+        return [{"name": "dep-import-options/located", "status": "unknown", "where": "Options.dep_import_options / build.find_module_and_diagnose(options=...) not found"}]
+    written = set()
+    for n in ast.walk(dep):
+        if isinstance(n, ast.Call) and isinstance(n.func, ast.Name) and n.func.id.startswith("write_"):
+            for a in n.args[1:]:
+                for x in ast.walk(a):
+                    if isinstance(x, ast.Attribute) and isinstance(x.value, ast.Name) and x.value.id == "self":
+                        written.add(x.attr)
+    reads = {}
+    for n in ast.walk(fmd):
+        if isinstance(n, ast.Attribute) and isinstance(n.value, ast.Name) and n.value.id == "options" and isinstance(n.ctx, ast.Load):
+            reads.setdefault(n.attr, n.lineno)
+    obs = []
+    if not reads or not written:
+        return [{"name": "dep-import-options/non-vacuous", "status": "unknown", "where": f"reads={sorted(reads)} written={sorted(written)}"}]
+    for attr, line in sorted(reads.items()):
+        ok = attr in written
+        obs.append({"name": f"dep-import-options/read-is-compared/{attr}", "status": "discharged" if ok else "refuted", "where": f"mypy/build.py:{line} options.{attr}",
+                    "detail": "" if ok else f"find_module_and_diagnose reads options.{attr} of the dependency but dep_import_options() does not record it", "key": f"dep-import-option:{attr}", "confirmed": True})
+    return obs
+
+
 def targets(tier):
-    return [StaticCheck("options.reads_frame", check_reads_frame, note="E4: syntactic reads of Options attributes in package mypy vs OPTIONS_AFFECTING_CACHE")]
+    return [StaticCheck("options.reads_frame", check_reads_frame, note="E4: syntactic reads of Options attributes in package mypy vs OPTIONS_AFFECTING_CACHE"),
+            StaticCheck("options.dep_import_options_frame", check_dep_import_options, note="E4: dependency-option reads of find_module_and_diagnose vs the fields dep_import_options records")]
